@@ -72,19 +72,22 @@ def containerExpr : Node → Option Node
     | e => some e
   | _ => none
 
+/-- `lower_first_letter` -/
+def lowerFirst (s : List Char) : List Char :=
+  match s with
+  | [] => []
+  | c :: cs => asciiLower c :: cs
+
 /-- name / argument / remaining `_` pieces of a directive attribute name -/
 def dirNameParts (a : AttrName) : String × Option String × List String :=
   match a with
   | .plain s =>
     let body := dropLeading '-' (dropLeading 'v' s.toList)
     match splitOn '_' body with
-    | [] => (String.ofList (s.toList.map asciiLower), none, [])   -- unreachable: splitOn is non-empty
-    | n :: rest =>
-      (String.ofList (n.map asciiLower),
-        (rest.head?).map String.ofList,
-        (rest.drop 1).map String.ofList)
+    | [] => (String.ofList (lowerFirst s.toList), none, [])   -- unreachable: splitOn is non-empty
+    | n :: rest => (String.ofList (lowerFirst n), none, rest.map String.ofList)
   | .ns ns name =>
-    let d := String.ofList ((dropLeading '-' (dropLeading 'v' ns.toList)).map asciiLower)
+    let d := String.ofList (lowerFirst (dropLeading '-' (dropLeading 'v' ns.toList)))
     match splitOn '_' name.toList with
     | [] => (d, some name, [])
     | a :: rest => (d, some (String.ofList a), rest.map String.ofList)
@@ -174,7 +177,10 @@ def parseDirective (name : AttrName) (value : Node) (isComponent : Bool) (st : S
               | none => (v, argument, none)
           | none => (v, argument, some (setOfList rest))
         | none => (e, argument, some (setOfList rest))
-      | none => (nEmptyIdent, argument, some (setOfList rest))
+      | none =>
+        match value with
+        | .mk .str as ks => (.mk .str as ks, argument, some (setOfList rest))     -- `v-foo="bar"`
+        | _ => (nEmptyIdent, argument, some (setOfList rest))
     let nonEmpty := match modifiers with | some m => !m.isEmpty | none => false
     let argument :=
       if nonEmpty then (match argument with | some a => some a | none => some nVoid0) else argument
